@@ -350,6 +350,10 @@ def run(prog: Program, res: Result) -> None:  # noqa: PLR0912, PLR0915
         res.fail("C08.R5", file=EXT, line=bd.node.lineno if bd else 0, qualname="BlockDrop.__getitem__", construct="super rendering", message="block.super does not render the next less-derived definition", what=what)
 
     # ------------------------------------------------------------------ R7 a partial is rendered in a context that names it
+    res.rule("C08.R8", "the inheritance tags are never taken for whitespace: ExtendsNode and the inheritance BlockNode write the parent chain's / the override's text, so their `blank` flag is False however they are nested - a blank `extends` inside a `{% liquid %}` or `{% if %}` whose other children are blank is rendered into the null buffer and the page comes out empty, without an error (shared with C01.R2 / C18.R2, restricted to liquid2/builtin/tags/extends_tag.py)")
+    from checks.blank import check_blank_flags
+
+    check_blank_flags(prog, res, "C08.R8", only_module=EXT, floor=2)
     res.rule("C08.R7", "wherever a loaded template T is rendered through T.render_with_context[_async](C, …) outside ExtendsNode, the context C names T as its current template: C is bound only from context.copy(…, template=T), or the call sits inside `with context.extend(…, template=T)` - ExtendsNode builds the chain of a partial from context.template")
     n7 = 0
     for fi in sorted(prog.all_functions(), key=lambda f: (f.file, f.node.lineno)):
